@@ -1429,7 +1429,13 @@ class Sym:
         c = b.get("_sink_leaf")
         if c is None:
             c = True
-            for x in F.walk(b["body"]):
+            # (its closures are part of it: `sections.into_iter().try_for_each(|s| write_aligned(writer, s))`)
+            bodies_, todo_ = [b], [b["path"]]
+            while todo_:
+                for cb_ in self.fx.closures_of(todo_.pop()):
+                    bodies_.append(cb_)
+                    todo_.append(cb_["path"])
+            for x in (y for bb_ in bodies_ for y in F.walk(bb_["body"])):
                 if x.get("k") == "Call" and "fn" in x:
                     tgt = self.fx.by_dp.get(x["fn"].get("dp"))
                     if tgt in self.fx.bodies and self.fx.bodies[tgt]["krate"] in self.krates and tgt != b["path"] \
